@@ -63,6 +63,8 @@ type Features struct {
 	// that compare whole trees or round-trip text ask for them). QuotedDDLNames: quoted names in DDL.
 	// IndexNulls: NULLS LAST on index columns.
 	DDL, Merge, QuotedDDLNames, IndexNulls bool
+	// DDLExtras: MERGE with a sub-query source, views over WITH queries, schema-qualified REFERENCES, NULLS FIRST on index columns
+	DDLExtras bool
 	// Flat: no nested query anywhere and no statement-starting keyword after the
 	// first token (SELECT/INSERT ... VALUES/DELETE only): the sub-grammar C12 quantifies over
 	Flat bool
